@@ -54,6 +54,19 @@ partial def rawOfJson (j : Json) : RawVal :=
     else .lit (valOfJson j)
   | _ => .lit (valOfJson j)
 
+def regReqOfJson (op : Json) : State.RegReq :=
+  let modJ := jfield op "module"
+  { name := splitDot (jstr (jfield op "name")), nameValid := jbool (jfield op "nameValid"),
+    module := if jisNull modJ then none else some (splitDot (jstr modJ)),
+    moduleValid := jbool (jfield op "moduleValid"),
+    sig := sigOfJson (jfield op "sig"),
+    innerSig := (match jfield op "innerSig" with | .null => none | j => some (sigOfJson j)),
+    allow := jstrs (jfield op "allow"),
+    deny := jstrs (jfield op "deny"), listTypesOk := jbool (jfield op "listTypesOk"),
+    objId := jnat (jfield op "obj"), isMethod := jbool (jfield op "method"),
+    isClass := jbool (jfield op "cls"),
+    methods := (jstrs (jfield op "methods")).map splitDot }
+
 partial def stmtOfJson (j : Json) : Stmt :=
   let line := jnat (jfield j "line")
   match jstr (jfield j "k") with
@@ -61,6 +74,7 @@ partial def stmtOfJson (j : Json) : Stmt :=
       (jstr (jfield j "arg")) (rawOfJson (jfield j "val")) line
   | "block" => .block (splitScope (jstr (jfield j "scope"))) (splitDot (jstr (jfield j "sel"))) line
   | "import" => .imp (jstr (jfield j "module")) (jbool (jfield j "found")) line
+      ((jarr (jfield j "regs")).map regReqOfJson)
   | "include" =>
     let f := jfield j "file"
     .incl (jstr (jfield j "name")) (if jisNull f then none else some ((jarr f).map stmtOfJson)) line
@@ -78,18 +92,7 @@ partial def parsedToJson : Parsed → Json
 
 partial def opOfJson (op : Json) : Op :=
   match jstr (jfield op "op") with
-  | "register" =>
-    let modJ := jfield op "module"
-    .register
-      { name := splitDot (jstr (jfield op "name")), nameValid := jbool (jfield op "nameValid"),
-        module := if jisNull modJ then none else some (splitDot (jstr modJ)),
-        moduleValid := jbool (jfield op "moduleValid"),
-        sig := sigOfJson (jfield op "sig"),
-        innerSig := (match jfield op "innerSig" with | .null => none | j => some (sigOfJson j)), allow := jstrs (jfield op "allow"),
-        deny := jstrs (jfield op "deny"), listTypesOk := jbool (jfield op "listTypesOk"),
-        objId := jnat (jfield op "obj"), isMethod := jbool (jfield op "method"),
-        isClass := jbool (jfield op "cls"),
-        methods := (jstrs (jfield op "methods")).map splitDot }
+  | "register" => .register (regReqOfJson op)
   | "bind" =>
     let locJ := jfield op "loc"
     if jisNull locJ then
